@@ -4,13 +4,6 @@ From Nice Require Import Stream.StreamBase Stream.StreamProofs Stream.TcpQueueMo
 Import ListNotations.
 Local Open Scope Z_scope.
 
-Theorem http_tunnel_transparent G s cs : h_state s = HT_CONNECTED -> h_base s = true ->
-  fst (run (http_body G) (alive s) cs) = alive s /\
-  vis vis_str (snd (run (http_body G) (alive s) cs)) = map OByte (concat cs).
-Proof.
-  intros H B. apply transparent_run. apply passthrough_transparent. unfold http_body. rewrite H, B. reflexivity.
-Qed.
-
 Lemma http_send_transparent s rel bufs : h_state s = HT_CONNECTED -> h_base s = true ->
   http_send s rel bufs = (s, [Dn (concat bufs); Snd 1]).
 Proof. intros H B. unfold http_send. rewrite H, B. reflexivity. Qed.
@@ -187,40 +180,42 @@ Proof.
   destruct (Z.leb_spec (off + n) (lenZ m)); [|lia]. simpl. eauto.
 Qed.
 
-Lemma handover_ok s : hring s -> okp (http_handover s).
+(** popping up to [cap] bytes off a non-empty ring *)
+Lemma ring_pop_ok cap s : hinv s -> 0 < h_fill s -> 1 <= cap ->
+  exists data pos', ring_pop cap s = Some (data, pos', h_fill s - Z.min cap (h_fill s)) /\
+    0 <= pos' < lenZ (h_buf s) /\ pos' = (h_pos s + Z.min cap (h_fill s)) mod lenZ (h_buf s).
 Proof.
-  intros ((P & F & PL & C & CB) & L0 & PL' & B). unfold http_handover. cbv zeta.
-  assert (HI : forall c, 0 <= c <= h_fill s ->
-     hinv {| h_state := HT_CONNECTED; h_base := h_base s; h_queue := []; h_buf := h_buf s;
-             h_pos := (h_pos s + c) mod lenZ (h_buf s); h_fill := h_fill s - c; h_cl := h_cl s |}).
-  { intros c Cc. pose proof (mod_range (h_pos s + c) _ L0). unfold hinv; simpl. repeat split; try lia; auto. }
-  assert (FIN : forall c data, 0 <= c <= h_fill s ->
-     okp (mark_if (0 <? h_fill s - c) 3
-            (flush_queue (h_queue s)
-              (PUp data (-1) (PDone {| h_state := HT_CONNECTED; h_base := h_base s; h_queue := []; h_buf := h_buf s;
-                                       h_pos := (h_pos s + c) mod lenZ (h_buf s); h_fill := h_fill s - c; h_cl := h_cl s |} 1))))).
-  { intros c data Cc. apply okp_mark. apply okp_flush.
-    split; [repeat constructor | apply lv_up; apply lv_done; intros _; apply HI; auto]. }
+  intros (P & F & PL & C & CB) F0 CP. unfold ring_pop. cbv zeta.
+  assert (L0 : 0 < lenZ (h_buf s)) by lia.
+  destruct (Z.ltb_spec (lenZ (h_buf s)) (h_pos s + h_fill s)).
+  - set (len1 := Z.min (lenZ (h_buf s) - h_pos s) cap).
+    destruct (mreadn_ok (h_buf s) (h_pos s) len1 ltac:(lia) ltac:(unfold len1; lia) ltac:(unfold len1; lia)) as [d1 ->].
+    set (len2 := Z.min (h_fill s - len1) (cap - len1)).
+    destruct (mreadn_ok (h_buf s) 0 len2 ltac:(lia) ltac:(unfold len2, len1; lia) ltac:(unfold len2, len1; lia)) as [d2 ->].
+    assert (E : len1 + len2 = Z.min cap (h_fill s)) by (unfold len2, len1; lia).
+    rewrite E. eexists _, _. split; [reflexivity|]. split; [apply mod_range; lia | reflexivity].
+  - set (len := Z.min (h_fill s) cap).
+    destruct (mreadn_ok (h_buf s) (h_pos s) len ltac:(lia) ltac:(unfold len; lia) ltac:(unfold len; lia)) as [d1 ->].
+    assert (E : len = Z.min cap (h_fill s)) by (unfold len; lia).
+    rewrite E. eexists _, _. split; [reflexivity|]. split; [apply mod_range; lia | reflexivity].
+Qed.
+
+Lemma handover_ok cap s : 1 <= cap -> hring s -> okp (http_handover cap s).
+Proof.
+  intros CP (HI & L0 & PL' & B). pose proof HI as (P & F & PL & C & CB). unfold http_handover. cbv zeta.
   destruct (Z.ltb_spec 0 (h_fill s)).
   2:{ apply okp_flush. apply okp_done. intros _. unfold hinv; simpl. repeat split; try lia; auto. }
-  unfold UPCAP.
-  destruct (Z.ltb_spec (lenZ (h_buf s)) (h_pos s + h_fill s)).
-  - set (len1 := Z.min (lenZ (h_buf s) - h_pos s) 70000).
-    destruct (mreadn_ok (h_buf s) (h_pos s) len1 ltac:(lia) ltac:(unfold len1; lia) ltac:(unfold len1; lia)) as [d1 ->].
-    set (len2 := Z.min (h_fill s - len1) (70000 - len1)).
-    destruct (mreadn_ok (h_buf s) 0 len2 ltac:(lia) ltac:(unfold len2, len1; lia) ltac:(unfold len2, len1; lia)) as [d2 ->].
-    apply FIN. unfold len2, len1. lia.
-  - set (len := Z.min (h_fill s) 70000).
-    destruct (mreadn_ok (h_buf s) (h_pos s) len ltac:(lia) ltac:(unfold len; lia) ltac:(unfold len; lia)) as [d1 ->].
-    apply FIN. unfold len. lia.
+  destruct (ring_pop_ok cap s HI ltac:(lia) CP) as (data & pos' & -> & PR & _).
+  apply okp_flush. split; [repeat constructor | apply lv_up; apply lv_done; intros _].
+  unfold hinv; simpl. repeat split; try lia; auto.
 Qed.
 
 Definition rank (st : Z) : nat :=
   if st =? HT_INIT then 4%nat else if st =? HT_HEADERS then 3%nat else if st =? HT_BODY then 2%nat else 1%nat.
 
-Lemma parse_ok : forall fuel s, hring s -> (Z.to_nat (h_fill s) + rank (h_state s) < fuel)%nat -> okp (http_parse fuel s).
+Lemma parse_ok cap : 1 <= cap -> forall fuel s, hring s -> (Z.to_nat (h_fill s) + rank (h_state s) < fuel)%nat -> okp (http_parse cap fuel s).
 Proof.
-  induction fuel as [|fuel IH]; intros s R F; [lia|].
+  intros CP. induction fuel as [|fuel IH]; intros s R F; [lia|].
   pose proof R as ((P & Fl & PL & C & CB) & L0 & PL' & B).
   simpl http_parse. cbv zeta.
   assert (F0 : 0 <= h_fill s) by lia.
@@ -287,11 +282,15 @@ Proof.
   - eexists _, _. split; [reflexivity|]. lia.
 Qed.
 
-Lemma body_ok G s : hinv s -> okp (http_body G s).
+Lemma body_ok cap G s : 1 <= cap -> hinv s -> okp (http_body cap G s).
 Proof.
-  intros HI. pose proof HI as (P & F & PL & C & CB). unfold http_body.
+  intros CP HI. pose proof HI as (P & F & PL & C & CB). unfold http_body.
   destruct (Z.eqb_spec (h_state s) HT_CONNECTED) as [SC|SC].
-  { rewrite (CB SC). unfold passthrough.
+  { destruct (Z.ltb_spec 0 (h_fill s)).
+    { destruct (ring_pop_ok cap s HI ltac:(lia) CP) as (data & pos' & -> & PR & _).
+      split; [repeat constructor | apply lv_up; apply lv_done; intros _].
+      unfold hinv, with_ring; simpl. repeat split; try lia; auto. }
+    rewrite (CB SC). unfold passthrough_cap.
     split.
     - apply sf_read. intros d _. destruct (lenZ d =? 0); repeat constructor.
     - apply lv_read. intros d. destruct (lenZ d =? 0); repeat (apply lv_up || apply lv_done); intros _; exact HI. }
@@ -320,7 +319,7 @@ Proof.
             | Some b1 => match mwrite b1 0 (dropZ size0 d) with
                          | None => PFault
                          | Some b2 => if negb (ring_valid L pos (h_fill s + lenZ d)) then PFault else
-                             http_parse (Datatypes.S (Datatypes.S (Datatypes.S (Datatypes.S (Datatypes.S (Z.to_nat (h_fill s + lenZ d)))))))
+                             http_parse cap (Datatypes.S (Datatypes.S (Datatypes.S (Datatypes.S (Datatypes.S (Z.to_nat (h_fill s + lenZ d)))))))
                                {| h_state := h_state s; h_base := true; h_queue := h_queue s; h_buf := b2;
                                   h_pos := pos; h_fill := h_fill s + lenZ d; h_cl := h_cl s |}
                          end
@@ -331,7 +330,7 @@ Proof.
             | Some b1 => match mwrite b1 0 (dropZ size0 d) with
                          | None => PFault
                          | Some b2 => if negb (ring_valid L pos (h_fill s + lenZ d)) then PFault else
-                             http_parse (Datatypes.S (Datatypes.S (Datatypes.S (Datatypes.S (Datatypes.S (Z.to_nat (h_fill s + lenZ d)))))))
+                             http_parse cap (Datatypes.S (Datatypes.S (Datatypes.S (Datatypes.S (Datatypes.S (Z.to_nat (h_fill s + lenZ d)))))))
                                {| h_state := h_state s; h_base := true; h_queue := h_queue s; h_buf := b2;
                                   h_pos := pos; h_fill := h_fill s + lenZ d; h_cl := h_cl s |}
                          end
@@ -340,10 +339,10 @@ Proof.
     destruct (Z.eqb_spec (lenZ d) 0).
     { split; [intros _|]; constructor. intros _; exact HI0. }
     assert (PARSE : forall b2, lenZ b2 = L -> h_fill s + lenZ d <= L ->
-      okp (http_parse (Datatypes.S (Datatypes.S (Datatypes.S (Datatypes.S (Datatypes.S (Z.to_nat (h_fill s + lenZ d)))))))
+      okp (http_parse cap (Datatypes.S (Datatypes.S (Datatypes.S (Datatypes.S (Datatypes.S (Z.to_nat (h_fill s + lenZ d)))))))
              {| h_state := h_state s; h_base := true; h_queue := h_queue s; h_buf := b2;
                 h_pos := pos; h_fill := h_fill s + lenZ d; h_cl := h_cl s |})).
-    { intros b2 L2 FL. apply parse_ok.
+    { intros b2 L2 FL. apply parse_ok; [exact CP| |].
       - unfold hring, hinv; simpl. rewrite L2. repeat split; try lia; auto.
       - cbn [h_fill h_state]. unfold rank.
         destruct (h_state s =? HT_INIT); [|destruct (h_state s =? HT_HEADERS); [|destruct (h_state s =? HT_BODY)]]; lia. }
@@ -369,41 +368,171 @@ Proof.
   - constructor. intros d. apply (proj2 (K d)).
 Qed.
 
-Lemma http_inv_step G s kb s1 r k e : hinv s -> exec (http_body G s) kb = (Some (s1, r), k, e) -> 0 <= r -> hinv s1.
-Proof. intros I E R. exact (leaves_exec hP _ (proj2 (body_ok G s I)) _ _ _ _ _ E R). Qed.
+Lemma http_inv_step cap G s kb s1 r k e : 1 <= cap -> hinv s -> exec (http_body cap G s) kb = (Some (s1, r), k, e) -> 0 <= r -> hinv s1.
+Proof. intros CP I E R. exact (leaves_exec hP _ (proj2 (body_ok cap G s CP I)) _ _ _ _ _ E R). Qed.
 
 Lemma exec_mark_inv {S} n (p : prog S) kb o k e : exec (PMark n p) kb = (o, k, e) -> exists e', exec p kb = (o, k, e').
 Proof. simpl. destruct (exec p kb) as [[o' k'] e']. intros E; inversion E; subst. eauto. Qed.
 
-Lemma http_call_ok G s kb o k e : hinv s -> kb <> [] -> exec (http_body G s) kb = (o, k, e) -> Forall (fun _ => True) e ->
-  match o with None => False | Some (s1, r) => 0 <= r -> hinv s1 /\ lenZ k < lenZ kb end.
+(** the parser never puts bytes into the ring: whatever it leaves holds at most what it was given *)
+Definition fillP (n : Z) (s1 : hst) (r : Z) : Prop := h_fill s1 <= n.
+Lemma fill_flush n q p : leaves (fillP n) p -> leaves (fillP n) (flush_queue q p).
+Proof. apply flush_queue_leaves. Qed.
+Lemma handover_fill cap n s : 1 <= cap -> hring s -> h_fill s <= n -> leaves (fillP n) (http_handover cap s).
 Proof.
-  intros I N E _. destruct o as [[s1 r]|].
-  2:{ exact (safe_exec _ (proj1 (body_ok G s I)) _ _ _ E). }
-  intros R. split; [eapply http_inv_step; eauto|].
-  pose proof I as (P & F & PL & C & CB). pose proof (lenZ_pos kb N).
-  unfold http_body in E.
-  destruct (Z.eqb_spec (h_state s) HT_CONNECTED) as [SC|SC].
-  { rewrite (CB SC) in E. rewrite exec_passthrough in E by auto. inversion E; subst. rewrite lenZ_dropZ. unfold UPCAP. lia. }
+  intros CP (HI & _) F. pose proof HI as (P & Fl & _). unfold http_handover. cbv zeta.
+  destruct (Z.ltb_spec 0 (h_fill s)).
+  2:{ apply fill_flush. constructor. unfold fillP; simpl. lia. }
+  destruct (ring_pop_ok cap s HI ltac:(lia) CP) as (data & pos' & -> & _).
+  apply fill_flush. apply lv_up, lv_done. unfold fillP; simpl. lia.
+Qed.
+Lemma parse_fill cap n : 1 <= cap -> forall fuel s, hring s -> h_fill s <= n -> leaves (fillP n) (http_parse cap fuel s).
+Proof.
+  intros CP. induction fuel as [|fuel IH]; intros s R F; [constructor|].
+  pose proof R as ((P & Fl & PL & C & CB) & L0 & PL' & B).
+  simpl http_parse. cbv zeta.
+  destruct (Z.eqb_spec (h_state s) HT_INIT) as [S0|S0].
+  { pose proof (parse_init_ok (h_buf s) (lenZ (h_buf s)) (h_pos s) (h_fill s) L0 eq_refl) as PI.
+    destruct (parse_init (h_buf s) (lenZ (h_buf s)) (h_pos s) (h_fill s)) as [| | |m]; try contradiction.
+    - constructor. exact F.
+    - unfold http_error. constructor. unfold fillP; simpl. exact F.
+    - apply IH. + apply hring_step; auto; lia. + unfold with_ring; simpl. lia. }
+  destruct (Z.eqb_spec (h_state s) HT_HEADERS) as [S1|S1].
+  { pose proof (parse_header_ok (h_buf s) (lenZ (h_buf s)) (h_pos s) (h_fill s) L0 eq_refl (h_cl s) C) as PH.
+    destruct (parse_header (h_buf s) (lenZ (h_buf s)) (h_pos s) (h_fill s) (h_cl s)) as [[r cl'] stale].
+    assert (X : leaves (fillP n) match r with
+       | PrFault => PFault | PrNeed => PDone (with_ring s HT_HEADERS (h_pos s) (h_fill s) cl') 0
+       | PrErr => http_error (with_ring s HT_HEADERS (h_pos s) (h_fill s) cl')
+       | PrOk m => http_parse cap fuel (with_ring s (if m =? 2 then HT_BODY else HT_HEADERS) ((h_pos s + m) mod lenZ (h_buf s)) (h_fill s - m) cl') end).
+    { destruct r as [| | |m]; try contradiction.
+      - constructor. unfold fillP; simpl. exact F.
+      - unfold http_error. constructor. unfold fillP; simpl. exact F.
+      - destruct PH as [N C']. apply IH.
+        + apply hring_step; auto; lia.
+        + unfold with_ring; simpl. lia. }
+    unfold mark_if. destruct stale; [constructor|]; exact X. }
+  destruct (Z.eqb_spec (h_state s) HT_BODY) as [S2|S2].
+  { destruct (Z.eqb_spec (h_cl s) 0).
+    - apply IH.
+      + unfold hring, hinv, with_ring in *; simpl. repeat split; try lia; auto.
+      + unfold with_ring; simpl. lia.
+    - destruct (Z.eqb_spec (h_fill s) 0).
+      + constructor. exact F.
+      + apply IH.
+        * apply hring_step; auto; lia.
+        * unfold with_ring; simpl. lia. }
+  destruct (Z.eqb_spec (h_state s) HT_CONNECTED).
+  - apply handover_fill; auto.
+  - unfold http_error. constructor. unfold fillP; simpl. exact F.
+Qed.
+
+(** one call, not yet connected: the ring afterwards holds at most what it held plus what was read *)
+Lemma call_fill cap G s kb s1 r k e : 1 <= cap -> hinv s -> h_state s <> HT_CONNECTED ->
+  exec (http_body cap G s) kb = (Some (s1, r), k, e) -> 0 <= r ->
+  h_fill s1 + lenZ k <= h_fill s + lenZ kb /\ (kb <> [] -> lenZ k < lenZ kb) /\ (kb = [] -> r = 0 /\ k = []).
+Proof.
+  intros CP I SC E R. pose proof I as (P & F & PL & C & CB). pose proof (lenZ_nonneg kb) as K0.
+  unfold http_body in E. destruct (Z.eqb_spec (h_state s) HT_CONNECTED) as [X|_]; [contradiction|].
   destruct (grow_ok G s I) as (buf & pos & GR & LL1 & LL2 & LL3 & LL4). rewrite GR in E. cbv zeta in E.
   set (L := lenZ buf) in *.
   assert (RV : ring_valid L pos (h_fill s) = true) by (apply ring_valid_spec; lia).
   rewrite RV in E. change (negb true) with false in E. cbv iota in E.
-  assert (REQ : 1 <= (if L <? pos + h_fill s then L - h_fill s else L - (pos + h_fill s)) +
-                     (if L <? pos + h_fill s then 0 else pos)).
-  { destruct (L <? pos + h_fill s); lia. }
-  destruct (h_base s).
-  2:{ simpl in E; inversion E; subst; lia. }
-  eapply read_progress; [exact REQ | exact N | exact E].
+  destruct (h_base s) eqn:Bs.
+  2:{ simpl in E; inversion E; subst. lia. }
+  rewrite exec_read in E.
+  set (req := (if L <? pos + h_fill s then L - h_fill s else L - (pos + h_fill s)) + (if L <? pos + h_fill s then 0 else pos)) in *.
+  assert (REQ : 1 <= req <= L - h_fill s) by (unfold req; destruct (L <? pos + h_fill s); lia).
+  set (d := takeZ req kb) in *. set (rest := dropZ req kb) in *.
+  assert (Ld : lenZ d + lenZ rest = lenZ kb).
+  { unfold d, rest. rewrite lenZ_takeZ, lenZ_dropZ. lia. }
+  pose proof (lenZ_nonneg d). pose proof (lenZ_nonneg rest).
+  assert (Ld' : lenZ d = Z.min req (lenZ kb)) by (unfold d; rewrite lenZ_takeZ; lia).
+  destruct (Z.eqb_spec (lenZ d) 0) as [D0|D0].
+  { simpl in E. inversion E; subst. simpl. split; [lia|]. split.
+    - intros N. pose proof (lenZ_pos kb N). lia.
+    - intros ->. split; auto. }
+  match type of E with context [exec ?p rest] => assert (LV : leaves (fillP (h_fill s + lenZ d)) p) end.
+  { destruct (mwrite buf _ _) as [b1|] eqn:W1; [|constructor].
+    destruct (mwrite b1 0 _) as [b2|] eqn:W2; [|constructor].
+    destruct (negb _) eqn:RV'; [constructor|].
+    apply negb_false_iff, ring_valid_spec in RV'.
+    assert (L2 : lenZ b2 = L) by (rewrite (mwrite_len _ _ _ _ W2), (mwrite_len _ _ _ _ W1); reflexivity).
+    apply parse_fill; [exact CP| |simpl; lia].
+    unfold hring, hinv; simpl. rewrite L2. repeat split; try lia; auto. }
+  destruct (exec _ rest) as [[o' k'] e'] eqn:EP. inversion E; subst o' k' e. clear E.
+  pose proof (leaves_exec _ _ LV _ _ _ _ _ EP) as X. unfold fillP in X.
+  apply exec_suffix in EP. split; [lia|]. split.
+  - intros _. lia.
+  - intros ->. rewrite lenZ_nil0 in *. lia.
+Qed.
+
+(** the measure that every call but the last of a readable event decreases *)
+Definition hmeas (s : hst) (kb : list Z) : nat := Z.to_nat (2 * h_fill s + 4 * lenZ kb).
+
+Lemma http_call_okw cap G : 1 <= cap -> forall s kb o k e, hinv s -> exec (http_body cap G s) kb = (o, k, e) ->
+  match o with
+  | None => False
+  | Some (s1, r) => 0 <= r -> hinv s1 /\
+      ((r = 0 /\ lenZ k = lenZ kb /\ kb = []) \/ ((r <> 0 \/ lenZ k <> lenZ kb) /\ (hmeas s1 k < hmeas s kb)%nat))
+  end.
+Proof.
+  intros CP s kb o k e I E. destruct o as [[s1 r]|].
+  2:{ exact (safe_exec _ (proj1 (body_ok cap G s CP I)) _ _ _ E). }
+  intros R. split; [eapply http_inv_step; eauto|].
+  pose proof I as (P & F & PL & C & CB). pose proof (lenZ_nonneg kb) as K0. unfold hmeas.
+  destruct (Z.eq_dec (h_state s) HT_CONNECTED) as [SC|SC].
+  - unfold http_body in E. rewrite SC in E. change (HT_CONNECTED =? HT_CONNECTED) with true in E. cbv iota in E.
+    destruct (Z.ltb_spec 0 (h_fill s)).
+    + destruct (ring_pop_ok cap s I ltac:(lia) CP) as (data & pos' & RP & _). rewrite RP in E.
+      simpl in E. inversion E; subst. right. split; [left; lia|]. unfold with_ring; simpl. lia.
+    + rewrite (CB SC) in E. unfold passthrough_cap in E. rewrite exec_read in E.
+      pose proof (lenZ_takeZ cap kb) as LT. pose proof (lenZ_dropZ cap kb) as LD.
+      destruct (Z.eqb_spec (lenZ (takeZ cap kb)) 0) as [D0|D0]; simpl in E; inversion E; subst.
+      * left. assert (lenZ kb = 0) by lia. split; auto. split; [lia|]. apply lenZ_nil; auto.
+      * right. split; [left; lia|]. lia.
+  - destruct (call_fill cap G s kb s1 r k e CP I SC E R) as (A & B & D).
+    destruct kb as [|x kb'].
+    + destruct (D eq_refl) as [-> ->]. left. auto.
+    + assert (N : x :: kb' <> []) by discriminate. specialize (B N). right. split; [right; lia|].
+      pose proof (lenZ_nonneg k). pose proof (proj1 (proj2 (http_inv_step cap G s _ s1 r k e CP I E R))). lia.
 Qed.
 
 Lemma hinv_init : hinv http_init.
 Proof. unfold hinv, http_init; simpl. rewrite lenZ_nil0. repeat split; try lia; auto; try discriminate. Qed.
 
-Theorem http_no_fault G cs :
-  ~ In EFault (snd (run (http_body G) (alive http_init) cs)) /\ ~ In ELive (snd (run (http_body G) (alive http_init) cs)).
+Lemma http_fuel_ok s c : (hmeas s c < http_fuel s c)%nat.
 Proof.
-  destruct (run_ok (http_body G) hinv (fun _ => True) (http_call_ok G) cs (alive http_init)
-              (fun _ => hinv_init) ltac:(discriminate) ltac:(discriminate)) as (A & B & _); auto.
-  apply Forall_forall. auto.
+  unfold hmeas, http_fuel. pose proof (lenZ_nonneg c). rewrite lenZ_length in *.
+  destruct (Z.le_gt_cases 0 (h_fill s)); lia.
+Qed.
+
+(** a run: readable events with the caller's buffer sizes [caps] (all >= 1) *)
+Definition caps_ok (cs : list (Z * list Z)) : Prop := Forall (fun c => 1 <= fst c) cs.
+
+Lemma http_feed_ok cap G w c w' e : 1 <= cap -> (dead w = 0 -> hinv (inner w)) -> dead w <> 2 -> dead w <> 3 ->
+  http_feed cap G w c = (w', e) ->
+  ~ In EFault e /\ ~ In ELive e /\ (dead w' = 0 -> hinv (inner w')) /\ dead w' <> 2 /\ dead w' <> 3.
+Proof.
+  intros CP I D2 D3 FD. unfold http_feed in FD. destruct (Z.eqb_spec (dead w) 0) as [D0|D0].
+  - exact (drainw_ok (http_body cap G) hinv hmeas (http_call_okw cap G CP) _ _ _ _ _ _ (I D0) (http_fuel_ok _ _) FD).
+  - inversion FD; subst. refine (conj _ (conj _ (conj I (conj D2 D3)))); intros [].
+Qed.
+
+Lemma http_run_ok G : forall cs w, caps_ok cs -> (dead w = 0 -> hinv (inner w)) -> dead w <> 2 -> dead w <> 3 ->
+  ~ In EFault (snd (http_run G w cs)) /\ ~ In ELive (snd (http_run G w cs)) /\
+  dead (fst (http_run G w cs)) <> 2 /\ dead (fst (http_run G w cs)) <> 3.
+Proof.
+  induction cs as [|[cap c] cs IH]; intros w CO I D2 D3; simpl.
+  - repeat split; auto.
+  - inversion CO as [|? ? C1 C2]; subst. simpl in C1.
+    destruct (http_feed cap G w c) as [w1 e1] eqn:F1. destruct (http_run G w1 cs) as [w2 e2] eqn:R2. simpl.
+    destruct (http_feed_ok cap G w c w1 e1 C1 I D2 D3 F1) as (A & B & C & E2 & E3).
+    specialize (IH w1 C2 C E2 E3). rewrite R2 in IH. simpl in IH. destruct IH as (A' & B' & C' & D').
+    repeat split; auto; rewrite in_app_iff; tauto.
+Qed.
+
+Theorem http_no_fault G cs : caps_ok cs ->
+  ~ In EFault (snd (http_run G (alive http_init) cs)) /\ ~ In ELive (snd (http_run G (alive http_init) cs)).
+Proof.
+  intros CO. destruct (http_run_ok G cs (alive http_init) CO (fun _ => hinv_init) ltac:(discriminate) ltac:(discriminate)) as (A & B & _); auto.
 Qed.
